@@ -359,7 +359,10 @@ func (s *Sim) adminResult(a *adminReq, r dragonboat.RequestResult) {
 	case "readd-removed":
 		s.ctx.Violate("C07", "removed-readmitted", "replica %d was removed and a later request to add it again completed", a.target.replicaID)
 	case "dup-address":
-		s.ctx.Violate("C07", "address-added-twice", "address %s of member %d was added again under another replica id", a.target.addr, a.target.replicaID)
+		// legitimate if the member holding the address was removed before this
+		// change applied; whether an address is in use twice is judged on the
+		// memberships themselves (observeMembership)
+		s.ctx.Count("probe.dup_address_completed", 1)
 	case "demote":
 		s.ctx.Violate("C07", "kind-change", "voting member %d was turned into a non-voting member", a.target.replicaID)
 	}
